@@ -77,6 +77,21 @@ def _accessors(seed, n):
                 r3 = impl.call(dsw.adjacency_matrix_to_accessor, dsw.accessor_to_adjacency_matrix(r["value"]))
                 if r3["out"] == "ok":
                     src.append(("adjacency_matrix_to_accessor", r3["value"]))
+            if k in (2, 3):
+                m = dsw.accessor_to_adjacency_matrix(r["value"])
+                u = rng.randrange(N)
+                w = rng.choice([x for x in range(N) if x // 4 != (4 * u % N) // 4])
+                m[u, w] = 1                                                    # an arc that is not a shift
+                r5 = impl.call(dsw.adjacency_matrix_to_accessor, m)
+                if r5["out"] == "ok":
+                    src.append(("adjacency_matrix_to_accessor(matrix with a stray arc)", r5["value"]))
+                if k == 3:
+                    for u in rng.sample(range(16, N), 6):                       # a target that would be a successor one order lower
+                        m2 = numpy.zeros((N, N), dtype=int)                    # nothing but the one questionable arc
+                        m2[u, (4 * u + rng.randrange(4)) % (N // 4)] = 1
+                        r6 = impl.call(dsw.adjacency_matrix_to_accessor, m2)
+                        if r6["out"] == "ok":
+                            src.append(("adjacency_matrix_to_accessor(matrix with a lower-order arc)", r6["value"]))
         t = rng.choice([1, 2, 3])
         r = impl.call(dsw.connect_coding_graph, k, mask, t, _budget=4 * N + 8)
         if r["out"] == "ok":
